@@ -3,7 +3,7 @@ CONSTANTS
   r1 = r1
   r2 = r2
   r3 = r3
-  Racers = {r1, r2, r3}
+  Racers = {r1, r2}
   Live0 = 2
   Pool = {3, 4, 5, 6, 7, 8}
   Ops = {"remove", "add", "terminate"}
